@@ -563,7 +563,7 @@ func init() {
 					js = append(js, J("plugin/secure", "VX_C17_Call", mark, acc, 1, 1))
 				}
 			}
-			js = append(js, J("plugin/secure", "VX_C17_Call", 1, 0, 0, 1), J("plugin/secure", "VX_C17_Call", 0, 0, 0, 1), J("plugin/secure", "VX_C17_Call", 1, 1, 1, 0), J("plugin/secure", "VX_C17_Call", 1, 0, 0, 0), J("plugin/secure", "VX_C17_Call", 0, 1, 0, 0), J("plugin/secure", "VX_C17_Push", 1, 0, 0),
+			js = append(js, J("plugin/secure", "VX_C17_Call", 1, 0, 0, 1), J("plugin/secure", "VX_C17_Call", 0, 0, 0, 1), J("plugin/secure", "VX_C17_Call", 1, 1, 1, 0), J("plugin/secure", "VX_C17_Call", 1, 0, 0, 0), J("plugin/secure", "VX_C17_Call", 1, 0, 1, 1, 0, 0, 1), J("plugin/secure", "VX_C17_Call", 0, 1, 1, 1, 0, 0, 1), J("plugin/secure", "VX_C17_Call", 0, 0, 1, 1, 0, 0, 1), J("plugin/secure", "VX_C17_Call", 1, 1, 0, 1, 0, 0, 1), J("plugin/secure", "VX_C17_Call", 0, 1, 0, 0), J("plugin/secure", "VX_C17_Push", 1, 0, 0),
 				J("plugin/secure", "VX_C17_Push", 1, 1, 1), J("plugin/secure", "VX_C17_Push", 0, 1, 1), J("plugin/secure", "VX_C17_Push", 1, 0, 1),
 				J("plugin/secure", "VX_C17_PushRedial", 0, 1), J("plugin/secure", "VX_C17_PushRedial", 1, 1),
 				J("plugin/secure", "VX_C17_Call", 1, 0, 0, 1, 1), J("plugin/secure", "VX_C17_Call", 0, 1, 0, 1, 1), J("plugin/secure", "VX_C17_Call", 0, 1, 0, 1, 0), J("plugin/secure", "VX_C17_Call", 1, 1, 1, 1, 1),
